@@ -270,6 +270,13 @@ def toast_tile_for_point(depth, lat, lon, coordsys=ToastCoordinateSystem.ASTRONO
     point.
 
     """
+    # The point asked about is the exact value of the numbers passed in. NumPy
+    # keeps arithmetic on a narrow scalar (float32, float16, int8, ...) at that
+    # scalar's precision, which would move the point by up to ~1e-7 rad (float32)
+    # or ~1e-3 rad (float16, int8) -- many tile widths at large depths.
+    lat = float(lat)
+    lon = float(lon)
+
     lon = lon % TWOPI
 
     if depth == 0:
@@ -385,6 +392,11 @@ def toast_pixel_for_point(depth, lat, lon, coordsys=ToastCoordinateSystem.ASTRON
     coordinates of the pixels nearest the specified coordinates *lat* and *lon*.
 
     """
+    # Work in double precision whatever the type of the numbers passed in (see
+    # toast_tile_for_point).
+    lat = float(lat)
+    lon = float(lon)
+
     tile = toast_tile_for_point(depth, lat, lon, coordsys=coordsys)
 
     # Now that we have the tile, get its pixel locations and identify the pixel
